@@ -1,6 +1,7 @@
 (* C17 — both renderings of a scanWriter result project onto the same abstract result. *)
-From Coq Require Import ZifyN ZifyNat ZifyBool.
+From Coq Require Import ZifyN ZifyNat ZifyBool Sorted.
 From T38 Require Import Base.Bytes Model.RespOut Model.JsonScan Proofs.JsonRespProofs.
+From T38 Require Base.SMap.
 Open Scope N_scope.
 
 Lemma map_opt_map {A B C} (f : B -> option C) (g : A -> B) (h : A -> C) l :
@@ -109,15 +110,40 @@ Transparent bytes_eqb.
 Lemma jget_id m v : jget k_id ((k_id, v) :: m) = Some v.
 Proof. reflexivity. Qed.
 
-Lemma getj_stored it : it_jpath it = [] -> forall names,
-  map (fun n => tjson (getj n it)) names = map (fun n => tjson (getv n (it_fields it))) names.
-Proof. intros H names. apply map_ext. intros n. unfold getj. rewrite H. reflexivity. Qed.
+(* the repaired cell lookup (scan of the name-ordered list with early exit) finds what a plain
+   lookup finds, because an object's field list is a sub-list of the byte-ordered name list *)
+Lemma get_stored_getv fs names : covers fs names -> names_sorted names ->
+  forall n, get_stored n fs = getv n fs.
+Proof.
+  induction 1 as [names|fs n0 ns Hc IH|n0 v fs ns Hc IH]; intros Hs n.
+  - reflexivity.
+  - apply IH. inversion Hs; assumption.
+  - inversion Hs as [|? ? Hs' Hall]; subst. cbn [get_stored getv].
+    destruct (bytes_eqb n0 n) eqn:E.
+    + apply bytes_eqb_eq in E. subst. rewrite bytes_eqb_refl. reflexivity.
+    + assert (En : bytes_eqb n n0 = false).
+      { destruct (bytes_eqb n n0) eqn:E'; [|reflexivity]. apply bytes_eqb_eq in E'. subst.
+        rewrite bytes_eqb_refl in E. discriminate. }
+      rewrite En. destruct (bytes_ltb n0 n) eqn:L; [apply IH; exact Hs'|].
+      (* n0 > n: every later name is larger still *)
+      symmetry. apply getv_notin. intros Hin.
+      apply (covers_in _ _ Hc) in Hin. rewrite Forall_forall in Hall. specialize (Hall _ Hin).
+      assert (Hlt : bytes_ltb n n0 = true).
+      { unfold bytes_ltb in *. rewrite (bytes_cmp_antisym n n0) in L.
+        destruct (bytes_cmp n n0) eqn:C; cbn in *; try discriminate; try reflexivity.
+        apply bytes_cmp_eq in C. subst. rewrite bytes_eqb_refl in En. discriminate. }
+      pose proof (SMap.ltb_trans _ _ _ Hlt Hall) as Hnn. rewrite SMap.ltb_irrefl in Hnn. discriminate.
+Qed.
+
+Lemma stored_cells it names : covers (it_fields it) names -> names_sorted names -> forall l,
+  map (fun n => tjson (get_stored n (it_fields it))) l = map (fun n => tjson (getv n (it_fields it))) l.
+Proof. intros Hc Hs l. apply map_ext. intros n. rewrite (get_stored_getv _ _ Hc Hs). reflexivity. Qed.
 
 Lemma json_item_proj r it :
-  NoDup (sr_names r) -> covers (it_fields it) (sr_names r) -> it_jpath it = [] ->
+  NoDup (sr_names r) -> covers (it_fields it) (sr_names r) -> names_sorted (sr_names r) ->
   proj_jitem (sr_out r) (eff_names r) (json_item r it) = Some (abs_item r it).
 Proof.
-  intros Hnd Hc Hj. unfold json_item, proj_jitem, abs_item, eff_names. rewrite (getj_stored it Hj).
+  intros Hnd Hc Hj. unfold json_item, proj_jitem, abs_item, eff_names. rewrite (stored_cells it _ Hc Hj).
   destruct (sr_out r) eqn:Eo.
   - unfold fields_output. rewrite Eo. destruct (show_dist it); reflexivity.
   - (* count *)
@@ -143,11 +169,11 @@ Theorem modes_agree_proof : forall r, wf_res r ->
   proj_json (sr_out r) (render_json r) = Some (abs_of r) /\
   proj_resp (sr_out r) (render_resp r) = Some (abs_of r).
 Proof.
-  intros r [[Hnd Hcov] Hjp]. rewrite Forall_forall in Hcov. rewrite Forall_forall in Hjp. split.
+  intros r (Hnd & Hcov & Hjp). rewrite Forall_forall in Hcov. split.
   - (* JSON *)
     assert (Hitems : map_opt (proj_jitem (sr_out r) (eff_names r)) (map (json_item r) (sr_items r)) =
                      Some (map (abs_item r) (sr_items r))).
-    { apply map_opt_map. intros it Hin. apply json_item_proj; [exact Hnd | apply Hcov; exact Hin | apply Hjp; exact Hin]. }
+    { apply map_opt_map. intros it Hin. apply json_item_proj; [exact Hnd | apply Hcov; exact Hin | exact Hjp]. }
     unfold render_json, proj_json, abs_of.
     unfold eff_names in Hitems.
     destruct (sr_out r) eqn:Eo.
@@ -185,7 +211,7 @@ Lemma zero_distance_kept :
   proj_json OIds (render_json zero_dist_result) = Some (abs_of zero_dist_result) /\
   proj_resp OIds (render_resp zero_dist_result) = Some (abs_of zero_dist_result).
 Proof.
-  split; [split; [split; [constructor | repeat constructor] | repeat constructor]|]. split; [reflexivity|].
+  split; [split; [constructor | split; [repeat constructor | constructor]]|]. split; [reflexivity|].
   split; vm_compute; reflexivity.
 Qed.
 
@@ -198,16 +224,17 @@ Definition render_json_dropzero (r : scanres) : jval :=
 Lemma dropzero_refuted :
   exists r, wf_res r /\ proj_json (sr_out r) (render_json_dropzero r) <> proj_resp (sr_out r) (render_resp r).
 Proof.
-  exists zero_dist_result. split; [split; [split; [constructor | repeat constructor] | repeat constructor]|].
+  exists zero_dist_result. split; [split; [constructor | split; [repeat constructor | constructor]]|].
   vm_compute. discriminate.
 Qed.
 
-(* Open finding C17-scan-json-path-field: the JSON arm of writeFilled fills the positional "fields"
-   array with opts.obj.Fields().Get(name), and List.Get answers a dotted name j.p from inside a
-   JSON-valued field j; the RESP arm lists the stored fields.  With
+(* Finding C17-scan-json-path-field (repaired in /repo: 903e555).  Before the repair the JSON arm of
+   writeFilled filled the positional "fields" array with opts.obj.Fields().Get(name), and List.Get
+   answers a dotted name j.p from inside a JSON-valued field j; the RESP arm lists the stored fields.  With
      SET fleet b FIELD props.speed 5 POINT 1 1 ; SET fleet truck1 FIELD props {"speed":7} POINT 2 2
-   SCAN fleet OBJECTS tells a JSON client that truck1 has props.speed = 7, and a RESP client that it
-   has no such field. *)
+   SCAN fleet OBJECTS told a JSON client that truck1 has props.speed = 7, and a RESP client that it
+   has no such field.  The pinned arm is json_item_pinned; the result below is well-formed, the
+   repaired renderings agree on it (modes_agree_proof), the pinned JSON rendering does not. *)
 Definition t5 : tval := TTok [53].
 Definition t7 : tval := TTok [55].
 Definition n_props : bytes := [112; 114; 111; 112; 115].
@@ -222,15 +249,34 @@ Definition json_path_result : scanres :=
                       it_distout := false; it_dist := []; it_dist_pos := false |} ];
      sr_count := 2; sr_cursor := 0 |}.
 
-Lemma json_path_field_refuted :
-  wf_names json_path_result /\
-  proj_json (sr_out json_path_result) (render_json json_path_result) <>
+Definition render_json_pinned (r : scanres) : jval :=
+  JObj ([(k_ok, JTok t_true)] ++
+        (if fields_output r && negb (match sr_names r with [] => true | _ => false end)
+         then [(k_fields, JArr (map JStr (sr_names r)))] else []) ++
+        (match sr_out r with
+         | OIds => [(k_ids, JArr (map (json_item_pinned r) (sr_items r)))]
+         | OObjects => [(k_objects, JArr (map (json_item_pinned r) (sr_items r)))]
+         | OCount => []
+         end) ++
+        [(k_count, JNum (sr_count r)); (k_cursor, JNum (sr_cursor r))]).
+
+Lemma json_path_result_wf : wf_res json_path_result.
+Proof.
+  split; [|split].
+  - repeat constructor; cbn; intuition discriminate.
+  - constructor; [apply cov_skip, cov_take, cov_nil|].
+    constructor; [apply cov_take, cov_nil | constructor].
+  - constructor; [constructor; [constructor | constructor] | constructor; [reflexivity | constructor]].
+Qed.
+
+Lemma json_path_field_pinned_refuted :
+  wf_res json_path_result /\
+  proj_json (sr_out json_path_result) (render_json_pinned json_path_result) <>
+  proj_resp (sr_out json_path_result) (render_resp json_path_result) /\
+  proj_json (sr_out json_path_result) (render_json json_path_result) =
   proj_resp (sr_out json_path_result) (render_resp json_path_result).
 Proof.
-  split.
-  - split.
-    + repeat constructor; cbn; intuition discriminate.
-    + constructor; [apply cov_skip, cov_take, cov_nil|].
-      constructor; [apply cov_take, cov_nil | constructor].
+  split; [exact json_path_result_wf|]. split.
   - vm_compute. discriminate.
+  - destruct (modes_agree_proof _ json_path_result_wf) as [-> ->]. reflexivity.
 Qed.
